@@ -23,7 +23,7 @@ pub const EXIT_SLACK_MS: u64 = 100;
 pub const ADMIN_MSG: &str = "terminating connection due to administrator command";
 
 pub const CLIENT_PROGS: &[&str] = &[
-    "idle", "txn-slow", "txn-never", "autos", "ext-slow", "copy-slow", "drop-early", "drop-in-txn-early", "term-early", "badpw", "late", "late-slow", "session", "drop-after", "idle-then-q",
+    "idle", "txn-slow", "txn-never", "autos", "ext-slow", "copy-slow", "drop-early", "drop-in-txn-early", "term-early", "badpw", "late", "late-slow", "session", "drop-after", "idle-then-q", "cancel-early",
 ];
 pub const ADMIN_PROGS: &[&str] = &["none", "admin-early", "admin-late", "admin-split"];
 pub const SIGNALS: &[&str] = &["INT", "SHUTDOWN", "TERM", "INT+INT", "HUP+INT", "INT+TERM", "HUP", "none", "INT-at-0"];
@@ -86,6 +86,8 @@ fn client(c: usize, prog: &str) -> Script {
         "drop-early" => login(Script::new(&name)).q(&format!("SELECT 1 /*{}*/", t(0, 0))).close(CloseKind::HardDrop),
         "drop-in-txn-early" => login(Script::new(&name)).q(&format!("BEGIN /*{}*/", t(0, 0))).q(&format!("SELECT 1 /*{}*/", t(0, 1))).close(CloseKind::HardDrop),
         "term-early" => login(Script::new(&name)).q(&format!("SELECT 1 /*{}*/", t(0, 0))).terminate(),
+        // a CancelRequest connection (nobody's key) before the signal: it comes and goes through the same counter
+        "cancel-early" => Script::new(&name).step(Step::Cancel(crate::world::CancelKey::Raw(4242, 2424))),
         "badpw" => Script::new(&name).connect("alice", "db", Some("wrong")).wait(Cond::Closed),
         "late" => Script::new(&name).wait(Cond::TimeMs(T_SIG + 60)).connect("alice", "db", Some("alicepw")).q(&format!("SELECT 1 /*{}*/", t(0, 0))).terminate(),
         "late-slow" => Script::new(&name).wait(Cond::TimeMs(T_SIG + 500)).connect("alice", "db", Some("alicepw")).q(&format!("SELECT 1 /*{}*/", t(0, 0))).terminate(),
@@ -596,7 +598,7 @@ pub fn build(tier: &str) -> SimCheck {
         oracle: Box::new(oracle),
         bound: if thorough { 3 } else { 2 },
         limits: Limits { max_wall_s: if thorough { 3000.0 } else { 55.0 }, ..Default::default() },
-        rule: "the accept/signal/drain loop of src/main.rs (extracted verbatim at build time) runs in the sim with the real client tasks; population = client programs (idle, slow / never-ending / extended / COPY transactions across the signal, autocommit, leaves before the signal by Terminate / hard drop / hard drop in a transaction / failed login, arrives after the signal early and late, session-mode, drops after the signal, statement racing the signal) + admin client (connected before, arriving after, query bytes straddling the signal) x signal pattern (SIGINT, admin SHUTDOWN, SIGTERM, SIGINT twice, SIGHUP then SIGINT, SIGINT then SIGTERM, SIGHUP only, none, SIGINT at time 0); all schedules with <= bound deviations; shutdown_timeout 1000 ms of virtual time".into(),
+        rule: "the accept/signal/drain loop of src/main.rs (extracted verbatim at build time) runs in the sim with the real client tasks; population = client programs (idle, slow / never-ending / extended / COPY transactions across the signal, autocommit, leaves before the signal by Terminate / hard drop / hard drop in a transaction / failed login, a cancel-request connection before the signal, arrives after the signal early and late, session-mode, drops after the signal, statement racing the signal) + admin client (connected before, arriving after, query bytes straddling the signal) x signal pattern (SIGINT, admin SHUTDOWN, SIGTERM, SIGINT twice, SIGHUP then SIGINT, SIGINT then SIGTERM, SIGHUP only, none, SIGINT at time 0); all schedules with <= bound deviations; shutdown_timeout 1000 ms of virtual time".into(),
         assumptions: vec![
             "process exit = the extracted main loop returning; unix signals are delivered through channels with tokio's Signal::recv shape (coalescing of signals that arrive before a recv is not modelled: two SIGINTs are two events); the admin SHUTDOWN's kill(self, SIGINT) goes through the verif::signal hook".into(),
             "a client that had not finished logging in when SIGINT arrived may be cut by the exit (not judged)".into(),
@@ -694,7 +696,7 @@ pub fn conformance_scenarios(tier: &str) -> Vec<Scenario> {
     let mut v = Vec::new();
     let sigs: Vec<&str> = SIGNALS.iter().copied().filter(|s| *s != "INT-at-0").collect();
     for a in CLIENT_PROGS {
-        if *a == "idle-then-q" {
+        if *a == "idle-then-q" || *a == "cancel-early" {
             continue;
         }
         for sig in &sigs {
@@ -710,7 +712,7 @@ pub fn conformance_scenarios(tier: &str) -> Vec<Scenario> {
     if tier == "thorough" {
         for (i, a) in CLIENT_PROGS.iter().enumerate() {
             for b in CLIENT_PROGS.iter().skip(i) {
-                if *a == "idle-then-q" || *b == "idle-then-q" {
+                if ["idle-then-q", "cancel-early"].contains(a) || ["idle-then-q", "cancel-early"].contains(b) {
                     continue;
                 }
                 for sig in ["INT", "SHUTDOWN"] {
